@@ -113,6 +113,7 @@ class Machine:
         self.call_events = []  # ('call'|'ret'|'badret', ...)
         self.hits = {}
         self.reg_writer = {}  # shadow tags: physical register -> line that wrote it
+        self.sp_at_yield = []
 
     # ---------------------------------------------------------------- operands
     def num(self, tok, kind="num"):
@@ -259,6 +260,7 @@ class Machine:
             return None
         if op in ("yield", "sleep"):
             self.trace.append(("yield",) if op == "yield" else ("sleep", N(a[0])))
+            self.sp_at_yield.append((self.reg["sp"], len(self.calls)))
             self.tick += 1
             if self.tick >= self.max_ticks:
                 self.status = "ticks"
